@@ -23,9 +23,40 @@ def snapshot():
     return 0
 
 
+def selftest():
+    """translator self-test on extract/selftest: semantics of a few constructs by kernel evaluation, and loud rejections"""
+    st = f"{vlib.ROOT}/extract/selftest"
+    exe = f"{vlib.BUILD}/extract"
+    os.makedirs(vlib.BUILD, exist_ok=True)
+    vlib.sh(["go", "build", "-o", exe, "."], cwd=f"{vlib.ROOT}/extract", env=vlib.GOENV)
+    rc, gen, se = vlib.sh([exe, "-translate", st, f"{st}/targets"])
+    if rc != 0:
+        print("selftest: targets do not translate:", se)
+        return 1
+    rc, sv, se = vlib.sh([exe, "-survey", st, f"{st}/targets", "p"])
+    bad = 0
+    for line in open(f"{st}/rejected"):
+        key, why = [x.strip() for x in line.split(":", 1)]
+        if not any(l.startswith("NO") and key in l and why in l for l in sv.splitlines()):
+            print("selftest: not rejected as expected:", line.strip())
+            bad = 1
+    work = f"{vlib.WORK}/translated"
+    os.makedirs(work, exist_ok=True)
+    path = f"{work}/Selftest.lean"
+    open(path, "w").write("import NodisVerif.Model.GoLib\n" + gen + open(f"{st}/expect.lean").read())
+    rc, so, se = vlib.sh(["lake", "env", "lean", path], cwd=vlib.LEAN)
+    if "error" in so + se:
+        print(so + se)
+        bad = 1
+    print("selftest", "FAILED" if bad else "ok")
+    return bad
+
+
 def main():
     if sys.argv[1:] == ["--snapshot"]:
         return snapshot()
+    if sys.argv[1:] == ["--selftest"]:
+        return selftest()
     want = sys.argv[1:]
     groups = [g for g in vlib.translated_groups() if not want or g["name"] in want]
     work = f"{vlib.WORK}/translated"
